@@ -82,9 +82,15 @@ CLS = {AuthorizationCode: "code", AccessToken: "access", RefreshToken: "refresh"
 class Runner:
     """one long-lived provider; handles (ints) for grants and tokens in creation order, mirroring the model's counter"""
 
-    def __init__(self, oidc=True, jwt=False, usage=None, keys=None, more_endpoints=None, pkce=False):
+    def __init__(self, oidc=True, jwt=False, usage=None, keys=None, more_endpoints=None, pkce=False, deny=None):
         self.oidc, self.jwt, self.usage, self.keys, self.more_endpoints = oidc, jwt, usage, keys, more_endpoints
         self.s = make_server(oidc, jwt, usage=usage, keys=keys, more_endpoints=more_endpoints, pkce=pkce)
+        # deny_unknown_scopes: "all" = the provider's preference, a client id = that client's own setting
+        self.deny = deny
+        if deny == "all":
+            self.s.context.set_preference("deny_unknown_scopes", True)
+        elif deny:
+            self.s.context.cdb[deny]["deny_unknown_scopes"] = True
         self.auth_extra, self.token_extra = {}, {}     # further request parameters (PKCE) for the next authorize / tokenParse
         self.sm = self.s.context.session_manager
         self.h = {}          # real value / grant id -> handle
@@ -486,12 +492,12 @@ def model_line(o):
     raise ValueError(k)
 
 
-def cfg_line(oidc, jwt=False, usage=None):
+def cfg_line(oidc, jwt=False, usage=None, deny=None):
     # prov reset <oidc> <allowed: client;scopes...>  (rules are fixed to USAGE_A in the driver, generated table checked separately)
     al = []
     for c in CLIENTS:
         al.append(c + "=" + " ".join(ALLOWED[c] if ALLOWED[c] is not None else DEFAULT_ALLOWED))
-    return "prov\treset\t" + ("1" if oidc else "0") + "\t" + ("1" if jwt else "0") + "\t" + enc_list(al) + ("\tx" if usage == "exchange" else "\tc1" if usage == "c1rules" else "\tng" if usage == "nogrant" else "\tnr" if usage == "norefrule" else "")
+    return "prov\treset\t" + ("1" if oidc else "0") + "\t" + ("1" if jwt else "0") + "\t" + enc_list(al) + ("\tx" if usage == "exchange" else "\tc1" if usage == "c1rules" else "\tng" if usage == "nogrant" else "\tnr" if usage == "norefrule" else "\t-") + "\t" + (deny or "-")
 
 
 def parse_model(out):
